@@ -13,6 +13,7 @@ mod c11;
 mod c12;
 mod c15;
 mod c16;
+mod c18;
 mod misc;
 mod parsers;
 mod uri;
@@ -46,6 +47,7 @@ fn checks() -> Vec<CheckDef> {
         CheckDef { id: "C15", level: "exploration", run: c15::run, replay: c15::replay },
         CheckDef { id: "C16", level: "exploration", run: c16::run, replay: c16::replay },
         CheckDef { id: "C17", level: "exploration", run: misc::run_c17, replay: misc::replay_c17 },
+        CheckDef { id: "C18", level: "exploration", run: c18::run, replay: c18::replay },
         CheckDef { id: "C19", level: "exploration", run: api::run_c19, replay: api::replay_c19 },
     ]
 }
